@@ -6,6 +6,31 @@ ALL = ["C%02d" % i for i in range(1, 21)]
 
 # id -> (technique, level text, level note, design ref)
 CHECKS = {
+ "C10": ("explicit-state exploration of the real CFB8 stream: all call sequences to depth 3/4 over (length x aliasing layout) from the initial state and from every register position (all 7,854 (direction, ivPos, length, layout) transitions taken), plus exhaustive packet-size sequences over an encrypted Conn pair under 16 read-fragmentation patterns; judged by a byte-at-a-time AES-CFB8 reference",
+         "Every call's output equals ref/refcfb8 continued across calls for encrypt and decrypt, key sizes 16/24/32, in place / disjoint-below / disjoint-above / longer dst carved from one arena; decrypt(encrypt(m)) == m under four call patterns; two mcnet.Conn with SetCipher on both ends deliver every packet intact and in order for thresholds {-1,0,64} and all size sequences <=3 over 8 sizes in both directions.",
+         "Trusted: ref/refcfb8 (self-tested on NIST SP 800-38A F.3.7-F.3.12). Partial overlap of src and dst is outside cipher.Stream's contract and not exercised. The Conn part uses a deterministic single-threaded pipe (no scheduler).",
+         "DESIGN.md §2 C10"),
+ "C11": ("explicit-state BFS to fixpoint for all (b,n) with b*n<=8 on the real BitStorage, and the exhaustive (b in 1..32) x (n in 0..130,256,4096) x background x index-class x value-boundary product for single operations, ordered pairs and rejected calls; judged by a []uint64 model and a reference packer",
+         "After every Set/Swap/Get all n indices and all raw longs equal the model and ref/refpal's 1.16+ packing; Swap returns the previous value; out-of-range index/value panics and leaves every long unchanged; constructor accepts reference-packed longs and refuses len +-1; WriteTo -> ReadFrom into fresh/used storages -> Fix(b) preserves everything; b = 0 reads 0.",
+         "Trusted: ref/refpal (self-tested on the wiki.vg 5-bit example). calcBitStorageSize/calcBitsPerValue are judged through observable behaviour only. With b = 0 whether odd calls panic is unspecified.",
+         "DESIGN.md §2 C11"),
+ "C12": ("explicit-state search over operation histories on the real PaletteContainer (spine through every upgrade boundary, per-d sweeps with 6 transfer kinds, all macro-histories to depth 5/6, vanilla save pairs for every width) with a []int model compared at all positions after every step and an independent paletted-container wire reader",
+         "For block states (4096) and biomes (64): Get(i) returns the last value set or the default across single/linear/hash/global representations; wire round trips into fresh, previously-smaller and previously-larger containers preserve every position and consume exactly the bytes written; the wire form decodes with ref/refpal's reader under vanilla width rules; New*WithData(palette, raw) agrees with the same reading, including go-mc's own export and vanilla save pairs.",
+         "Trusted: ref/refpal. The announced bits byte for 4-bit and direct palettes (1 / 9) is accepted as vanilla's reader maps both to the right width. Ids outside the registry are not exercised.",
+         "DESIGN.md §2 C12"),
+ "C14": ("explicit-state BFS with replay over operation histories on the real region.Region (to fixpoint for small alphabets, depth-bounded for the full alphabet), oracle after every transition: map model, independent Anvil parser on the backing bytes, fresh Load compared with in-memory tables; logical clock through an overlay seam with ticks explored per transition",
+         "WriteSector over 4 coordinates x 7 sector-boundary sizes (+ largest accepted / over-limit leaves), ReadSector, ExistSector, PadToFullSector, re-open, on devices with and without io.WriterAt (thorough: also a real os.File): every chunk reads back the bytes last written, never-written chunks report absence, over-limit writes are refused without changing anything, the file is always a valid Anvil region (pairwise-disjoint runs beyond the header, length word, data), and offsets and Timestamps of a fresh Load equal those in memory.",
+         "Trusted: ref/refanvil (self-tested on 678 vanilla-written chunks of /repo/save/testdata). Payload bytes and timestamp values are dropped from the state key (no branch of mca.go depends on them) but checked on every transition. Zero-length writes and what padding must achieve are unspecified. mca.go is compiled with time.Now replaced by a seam (sed-generated overlay).",
+         "DESIGN.md §2 C14"),
+ "C15": ("exhaustive crash-point enumeration over the explored region-file state graph: for every WriteSector transition every prefix of its recorded physical writes, the last one torn at every 512-byte boundary (and every byte for short writes), re-opened with Load on the real code",
+         "For each of ~2M (quick) crash images Load succeeds, every coordinate other than the one being written reads back exactly its pre-state bytes and all 1024 never-written slots stay absent; the written chunk is only classified (old/new/absent/unreadable/torn).",
+         "Prefix-in-issue-order crash model (no write reordering); both device variants. The written chunk reading back a torn mix without error is unspecified (Anvil has no checksum; the statement allows old, new, absent or unreadable).",
+         "DESIGN.md §2 C15"),
+ "C19": ("stateless model checking of one real bot<->server session under the controlled scheduler (delay-bounded: every departure from the default scheduler and every short read on the in-memory pipe is a deviation) for every configuration of enumerated families (login matrix, play traffic, handler dispatch, status ping), against a reference dispatch model and the offline-UUID reference; free-running -race pass with both queue kinds; one loopback TCP ping",
+         "real server.Server.AcceptConn (offline MojangLoginHandler with threshold T, login checker, configuration-finish handler, harness GamePlay) vs real bot.Client.JoinServerWithOptions + HandleGame over shim/vnet: join completes iff the checker admits; AcceptPlayer sees Client.Name, the offline UUID (ref/refjava) and bot.ProtocolVersion; play packets of sizes around the threshold arrive intact and in order both ways; handler invocations equal the reference (generic before specific, descending priority, registration order on ties, bundles after the closing delimiter, stop at the failing handler with its error); status ping returns the handler's JSON; no deadlock in any explored schedule.",
+         "Sequential consistency; scheduling points at sync/pool/pipe operations only; LinkedListQueue under the scheduler (ChannelQueue blocks on a real channel: free-running pass only). The configuration handler is the statement's 'configuration finish' (server.Configurations' registry data is not used). Files that synchronise are compiled against shim/vsync by a mechanical overlay regenerated from /repo on every run.",
+         "DESIGN.md §1.3, §2 C19"),
+
  "C05": ("exhaustive enumeration (all 2^32 VarInt values in thorough; group-alphabet VarLong; all byte strings <=3 over 256 values and longer ones over a 6-symbol alphabet) on the real encoder/decoder against a bit-at-a-time LEB128 reference",
          "Encoder: WriteToBytes/WriteTo bytes equal the minimal LEB128 reference and Len() equals both counts; decoder: value, n and bytes consumed are exact with the tail untouched, never more than 5/10 bytes consumed, continuation runs of cap length are errors; from a ByteReader and from a plain io.Reader.",
          "Trusted: ref/refwire (self-tested on the protocol tables). VarLong's 2^64 values cannot be enumerated: 7-bit-group alphabets are the stated bound. Non-minimal encodings, overflow bits in the last group and truncated streams are unspecified.",
